@@ -59,17 +59,17 @@ func (eng) Cases(seed uint64, tier string) []core.CaseDesc {
 }
 
 type explorer struct {
-	schema  am.Schema
-	names   am.S
-	pairs   [][2]string // mutual Remove pairs
-	seen    map[string][]mutStep
-	order   []string
-	transN  int64
-	capT    int64
-	capN    int
-	capped  bool
-	viol    func(sig, what string, w any)
-	label   string
+	schema am.Schema
+	names  am.S
+	pairs  [][2]string // mutual Remove pairs
+	seen   map[string][]mutStep
+	order  []string
+	transN int64
+	capT   int64
+	capN   int
+	capped bool
+	viol   func(sig, what string, w any)
+	label  string
 }
 
 type mutStep struct {
@@ -110,7 +110,15 @@ func (x *explorer) checkSet(parsed am.Schema, active am.S, path []mutStep) {
 		as[s] = true
 	}
 	for _, s := range active {
-		for _, r := range parsed[s].Require {
+		// what the machine works with, and what the exported schema says (a
+		// Require the parser dropped is still written there)
+		reqs := slices.Clone(parsed[s].Require)
+		for _, r := range x.schema[s].Require {
+			if !slices.Contains(reqs, r) {
+				reqs = append(reqs, r)
+			}
+		}
+		for _, r := range reqs {
 			if !as[r] {
 				x.viol("C19/reachable/require-broken/"+x.label+"/"+s+"->"+r, fmt.Sprintf(
 					"%s: reachable active set %v has %s active without its Require %s", x.label, active, s, r),
